@@ -108,6 +108,20 @@ def run(ctx):
         from sa.util import find_locals, is_var
         l_in2 = find_locals(prog, f, lambda x, l: const_val(x) == 0, lambda x, l: x[0] == 'bin' and x[1] == 'Add' and (is_var(l)(x[2]) or is_var(l)(x[3])) and P.has(P.field('value'))(x))
         d['sums-input-values'] = len(l_in2) == 1
+        # every looked-up input is counted: the accumulation is conditional only on the loops, on the
+        # coinbase / null-outpoint skip and on the lookups themselves — not, e.g., on the spent script
+        # having an address form
+        if len(l_in2) == 1:
+            adds = [r for r in table(prog, f, l_in2[0]) if r[1][0] == 'bin' and r[1][1] == 'Add']
+
+            def plain(c):
+                if c[0] == 'is':
+                    return set(c[2]) <= {'Some', 'Ok', 'Continue'} and (P.call('*::next', P.anything)(c[1]) or P.has(P.call('*::get_tx_out', P.anything, P.anything))(c[1])
+                                                                        or P.has(P.call('*::get', P.anything, P.anything))(c[1]) or P.has(P.call('*::get_utxo', P.anything, P.anything))(c[1]))
+                if c[0] == 'hidden':   # the failing arm of a lookup (`?` / match with an error return)
+                    return any(isinstance(x, tuple) and x[0] == 'call' and x[1].rsplit('::', 1)[-1] in ('get_tx_out', 'get', 'get_utxo', 'ok_or_else', 'branch') for x in walk(c[1]))
+                return P.not_(P.call('*::is_null', P.anything))(c) or P.not_(P.call('*::is_coinbase', P.anything))(c)
+            d['every-looked-up-input-counted'] = len(adds) == 1 and all(plain(c) for c in adds[0][2])
         # output sum over o.value.to_sat()
         okout = False
         for k in prog.descendants(f):
@@ -187,6 +201,11 @@ def run(ctx):
             if k:
                 r = ex(prog, k).local(0)
                 oklazy = P.binop('Eq', P.has(P.agg(variant='Enabled')), P.field('lazily_evaluate_fee_percentiles', P.anything))(r)
+        # no other path condition (a guard written with `&&` is not on the dominator chain): the exact
+        # path condition of the computation is the single literal above
+        from sa.expr import feasible_path_conditions
+        dnf = feasible_path_conditions(prog, m, comp[0].bb) if comp else None
+        oklazy = oklazy and dnf is not None and len(dnf) == 1 and len(dnf[0]) == 1
         ctx.check(bool(comp) and oklazy, 'R5', 'eager-unless-lazy', comp[0] if comp else m, 'the heartbeat computes the percentiles unless lazily_evaluate_fee_percentiles == Enabled', 'eager/lazy condition: %s' % fmt_conds(conds)[:200])
     im = ctx.fn('R5', FP + 'get_current_fee_percentiles_impl')
     if im:
